@@ -141,6 +141,27 @@ class FmtStr(object):
         return FmtStr(self.tokens + o.tokens, self.pytype)
 
 
+def fmt_to_sstr(f):
+    """A token string made of literals and embedded symbolic strings as one z3 string term."""
+    parts = []
+    for t in f.tokens:
+        if isinstance(t, Lit):
+            parts.append(z3.StringVal(t.text))
+        elif isinstance(t, Emb):
+            parts.append(t.s.t)
+        elif isinstance(t, Dec) and t.minwidth == 0:
+            parts.append(z3.If(t.term >= 0, z3.IntToStr(t.term), z3.Concat(z3.StringVal('-'), z3.IntToStr(-t.term))))
+        else:
+            raise Unsupported("token %r as a z3 string" % (t,))
+    if not parts:
+        term = z3.StringVal('')
+    elif len(parts) == 1:
+        term = parts[0]
+    else:
+        term = z3.Concat(*parts)
+    return (SBytes if f.pytype is bytes else SStr)(term)
+
+
 def fmt_binop(interp, op, a, b):
     import ast
     if isinstance(op, ast.Add):
@@ -248,6 +269,7 @@ def sym_getitem(interp, obj, idx):
             j = SInt(z3.If(i.t < 0, i.t + n.t, i.t))
             return obj.elem(j)
         raise Unsupported("slice of symbolic sequence")
-    if isinstance(obj, dict) and isinstance(idx, Sym):
-        raise Unsupported("dict lookup with a symbolic key")
+    if isinstance(obj, dict) and isinstance(idx, (Sym, FmtStr)):
+        from .models import m_dict_getitem
+        return m_dict_getitem(interp, obj, idx)
     raise Unsupported("subscript %r[%r]" % (obj, idx))
